@@ -107,6 +107,7 @@ func runC17(cfg *config, res *monitor.Result) {
 			continue
 		}
 		g := cfg.gen(t)
+		fullVal := cfg.gen(t, "full").Random(t.md).Msg // every required field set
 		for vi := 0; vi < nvals; vi++ {
 			base := g.Random(t.md).Msg
 			if vi == 0 {
@@ -215,6 +216,21 @@ func runC17(cfg *config, res *monitor.Result) {
 					report("unmarshal", "accepted-missing-required", fmt.Sprintf("Unmarshal accepted %d bytes that lack required fields", len(b)), inHex)
 				case uerr != nil && initialized:
 					report("unmarshal", "rejected-complete-message", "Unmarshal failed although every required field is present: "+uerr.Error(), inHex)
+				}
+				// the same bytes decoded into a message that already holds a COMPLETE value: the verdict depends on the
+				// input alone (Unmarshal replaces the contents), also for the empty input
+				if fullGen, err := build(t, fullVal); err == nil {
+					evals++
+					var uerr2 error
+					pi := monitor.Try(func() { uerr2 = fullGen.(fastMsg).Unmarshal(b) })
+					switch {
+					case pi != nil:
+						report("unmarshal-into-used-message", "panic:"+monitor.PanicClass(pi.Value), "Unmarshal panicked: "+pi.Value, inHex)
+					case uerr2 == nil && !initialized:
+						report("unmarshal-into-used-message", "accepted-missing-required", fmt.Sprintf("Unmarshal of %d bytes that lack required fields into a message holding a complete value returned no error", len(b)), inHex)
+					case uerr2 != nil && initialized:
+						report("unmarshal-into-used-message", "rejected-complete-message", "Unmarshal into a used message failed although every required field is present: "+uerr2.Error(), inHex)
+					}
 				}
 				if res.WantSample() && si == 1 {
 					res.Sample(map[string]any{"package": t.pkg.GoPkg, "message": string(t.md.FullName()), "value": bridge.Text(d), "unset_required": cleared, "reference_initialized": initialized})
